@@ -5,6 +5,18 @@ import json
 import lib
 
 TARGETS = ["Props/C20.v", "Codec/Script.v"]
+
+MANIFEST = dict(
+    text="Theorems over ALL u64 values / all byte strings for the varint writer, reader and size function "
+         "(round trip at any offset, size agreement, canonical form, unrolled reader = LEB128 loop), about a "
+         "literal Gallina transcription of protobuf_utils.rs; model tied to the code by a differential "
+         "correspondence run (real write_varint64/read_varint64_offset/inner_sizeof_varint/MessageBufReader/"
+         "FileMessageReader vs the model evaluated by vm_compute) plus an independent property oracle.",
+    note="Trusted: Coq kernel+vm_compute, the hand transcription (checked by the correspondence on seeded cases), "
+         "harness and runner glue. Disk read errors and record lengths >= 2^63 are out of the model.",
+    technique="Rocq proof (induction, bit-vector lemmas) + model/implementation correspondence",
+    design="3/C20",
+)
 U64 = 1 << 64
 
 
